@@ -159,6 +159,28 @@ Theorem C18_iface_expiry_refuted_when_silenced :
 Proof. exact c18_iface_expiry_refuted_when_silenced. Qed.
 Print Assumptions C18_iface_expiry_refuted_when_silenced.
 
+(* reset() (also mid-lease) and the run-time setters (ports, max lease None->Some->None, retry config, NAK policy,
+   receive buffer) never let an address outlive its lease: reset drops it and the next poll() says so; the setters do not
+   touch the phase, its timers or the pending event.  (They are calls of the histories quantified over above, so
+   C18_lease_bound / C18_configured_only_by_valid_ack hold across them.)  set_outgoing_options and
+   set_parameter_request_list only change option bytes of emitted messages, which the model does not carry. *)
+Theorem C18_reset_and_setters_never_extend_lease : forall s,
+  ds_state (dhcp_reset s) = Discovering 0 /\
+  (forall cfg ra rb rbg e, ds_state s = Renewing cfg ra rb rbg e ->
+     snd (dhcp_poll (dhcp_reset s)) = Some EvDeconfigured) /\
+  (forall sp cp, ds_state (dhcp_set_ports s sp cp) = ds_state s /\
+                 ds_config_changed (dhcp_set_ports s sp cp) = ds_config_changed s) /\
+  (forall m, ds_state (dhcp_set_max_lease_duration s m) = ds_state s /\
+             ds_config_changed (dhcp_set_max_lease_duration s m) = ds_config_changed s) /\
+  (forall c, ds_state (dhcp_set_retry_config s c) = ds_state s /\
+             ds_config_changed (dhcp_set_retry_config s c) = ds_config_changed s) /\
+  (forall b, ds_state (dhcp_set_ignore_naks s b) = ds_state s /\
+             ds_config_changed (dhcp_set_ignore_naks s b) = ds_config_changed s) /\
+  (ds_state (dhcp_set_receive_packet_buffer s) = ds_state s /\
+   ds_config_changed (dhcp_set_receive_packet_buffer s) = ds_config_changed s).
+Proof. exact c18_reset_and_setters. Qed.
+Print Assumptions C18_reset_and_setters_never_extend_lease.
+
 (* Non-vacuity: DISCOVER -> OFFER -> REQUEST -> ACK -> Configured -> renew -> rebind -> expiry -> Deconfigured *)
 Theorem C18_example :
   Forall call_typed ex_calls /\ Forall call_sane ex_calls /\ ports_ok 1 [] ex_calls /\
